@@ -262,7 +262,7 @@ Fixpoint js_span_digits (l : list Z) : list Z * list Z :=
 (* scan_number: optional minus, zero or a non-zero digit and digits, optional fraction, optional exponent
    ->  (token text, is-integer, rest) *)
 Definition js_lex_num (l : list Z) : option (list Z * bool * list Z) :=
-  let '(sign, l1) := match l with 45 :: t => ([45], t) | _ => ([], l) end in
+  let '(sign, l1) := match l with b :: t => if b =? 45 then ([45], t) else ([], l) | [] => ([], l) end in
   match l1 with
   | [] => None
   | d :: t =>
@@ -271,9 +271,12 @@ Definition js_lex_num (l : list Z) : option (list Z * bool * list Z) :=
         let '(intpart, l2) := if d =? 48 then ([48], t) else js_span_digits l1 in
         let fracres :=
           match l2 with
-          | 46 :: t2 => let '(fd, l3) := js_span_digits t2 in
-                        match fd with [] => None | _ => Some (46 :: fd, l3) end
-          | _ => Some ([], l2)
+          | b :: t2 =>
+              if b =? 46 then
+                let '(fd, l3) := js_span_digits t2 in
+                match fd with [] => None | _ => Some (46 :: fd, l3) end
+              else Some ([], l2)
+          | [] => Some ([], l2)
           end in
         match fracres with
         | None => None
@@ -306,8 +309,8 @@ Definition js_int_overflow (z : Z) : bool := 2 ^ 1024 - 2 ^ 970 <=? Z.abs z.
 
 Definition js_int_of_tok (text : list Z) : Z :=
   match text with
-  | 45 :: ds => - ns_val ds
-  | ds => ns_val ds
+  | b :: ds => if b =? 45 then - ns_val ds else ns_val text
+  | [] => 0
   end.
 
 Definition js_is_ws (b : Z) : bool := (b =? 32) || (b =? 9) || (b =? 10) || (b =? 13).
@@ -433,8 +436,8 @@ with js_pobj (fuel : nat) (d : Z) (ts : list js_tok) (acc : list (list Z * js_va
 (* skip_bom *)
 Definition js_skip_bom (l : list Z) : option (list Z) :=
   match l with
-  | 239 :: t => match t with 187 :: 191 :: r => Some r | _ => None end
-  | _ => Some l
+  | b :: t => if b =? 239 then match t with 187 :: 191 :: r => Some r | _ => None end else Some l
+  | [] => Some l
   end.
 
 (* JsonDecode: ValidateUTF8, then sax_parse (strict: nothing but white space may follow the value) *)
